@@ -219,7 +219,12 @@ def run_flow_case(dname, cfg, pname, seed, tier, res=None):
     vio = []
     d = DC.DSUBJECTS[dname]
     try:
-        o32 = DC.materialise(d, cfg, pname, seed, dtype=torch.float32)
+        o32 = DC.materialise(d, cfg, "pat1" if pname == "narrow" else pname, seed, dtype=torch.float32)
+        if pname == "narrow":
+            # sharp mixture components (std about 0.05): ordinary inputs sit tens of standard deviations from every mean, so the
+            # component densities underflow in float32 unless the mixture is summed in log space
+            with torch.no_grad():
+                o32._made.final_layer.bias[2::3] = -3.0
         o64 = copy.deepcopy(o32).double()
     except Exception as e:
         if res is not None:
@@ -398,7 +403,7 @@ def run_unit(unit):
         for pname in pats:
             res["violations"].extend(run_case(name, cfg, pname, seed, tier, res))
     else:
-        for pname in DC.DSUBJECTS[name].patterns:
+        for pname in tuple(DC.DSUBJECTS[name].patterns) + (("narrow",) if name == "MADEMoG" else ()):
             res["violations"].extend(run_flow_case(name, cfg, pname, seed, tier, res))
     return res
 
